@@ -429,6 +429,11 @@ func (r *replacer) getSubstitution(key string) string {
 		if r.responseRecorder == nil {
 			return r.emptyValue
 		}
+		if r.request != nil && r.request.Method == http.MethodHead {
+			// what the handler wrote is recorded, but no body
+			// bytes are sent in response to a HEAD request
+			return "0"
+		}
 		return strconv.Itoa(r.responseRecorder.size)
 	case "{latency}":
 		if r.responseRecorder == nil {
